@@ -12,8 +12,11 @@ CBInit(e) == {CB!St(0, CB!Cfg(e.threshold, e.mock))}
 \* closed: it must be forwarded), slowE when the downstream handler returns: its outcome counts then - a
 \* success resets the counter, a failure adds to it (and is the last failure from then on: the harness
 \* measures the recovery time of later calls from it)
+\* burst(rounds, leaks): the total of the concurrent rounds (each written out like a script when its probe
+\* got through): no round may have let the probe through
 CBStep(s, e) ==
-    IF e.ev = "slowB" THEN (IF ~CB!Open(s) /\ e.fwd THEN {s} ELSE {})
+    IF e.ev = "burst" THEN (IF e.leaks = 0 THEN {s} ELSE {})
+    ELSE IF e.ev = "slowB" THEN (IF ~CB!Open(s) /\ e.fwd THEN {s} ELSE {})
     ELSE IF e.ev = "slowE"
     THEN IF e.res # e.o THEN {}
          ELSE {[s EXCEPT !.fc = IF e.o = "ok" THEN 0 ELSE IF @ > s.cfg.threshold THEN @ ELSE @ + 1]}
